@@ -961,11 +961,19 @@ def inplace_case(draw, shard, tier):
     for _ in range(d.int(0, 3)):
         ops.append(dict(op=d.pick("read", "read", "copy()", "ephem()", "dump", "interp", "copy.copy", "pickle",
                                   "share_new", "share_copy", "share_new_used")))
+    def retune():
+        # the settings are changed on the live ephemeris (before or after its interpolator was first built)
+        if d.coin():
+            return dict(op="set_method", method=d.pick("lagrange", "linear"))
+        return dict(op="set_order", order=d.pick(*[o for o in (2, 3, 4, 5, 6, 8) if o <= n]))
+
+    if d.int(0, 2) == 0:
+        ops.append(retune())
     for _ in range(d.int(1, 3)):
         ops.append(dict(op="set_form", form=d.pick(*CONV_FORMS)) if d.coin() else dict(op="set_frame", frame=d.pick(*CONV_FRAMES)))
         ops[-1]["on_clone"] = d.int(0, 2) == 0      # the conversion is made on the library's copy taken earlier (if any)
         for _ in range(d.int(0, 2)):
-            ops.append(dict(op=d.pick("interp", "node", "read", "copy()", "dump")))
+            ops.append(dict(op=d.pick("interp", "node", "read", "copy()", "dump")) if d.int(0, 4) else retune())
     ops += [dict(op="node"), dict(op="interp")]
     for o in ops:
         if o["op"] in ("interp", "node"):
@@ -1018,6 +1026,10 @@ def check_inplace(case):
                 other.interpolate(dates[0])
         elif kind == "dump":
             ccsds.dumps(eph)
+        elif kind == "set_method":
+            eph.method = method = op["method"]
+        elif kind == "set_order":
+            eph.order = k = op["order"]
         elif kind == "set_form":
             if op.get("on_clone") and clone is not None:
                 clone["eph"].form = clone["form"] = op["form"]
@@ -1069,7 +1081,8 @@ def check_inplace(case):
                 # angles may wrap between neighbouring points: only the node clause and the linear chord apply
                 # to such tables; check the components that do not wrap (the first one: a, r or rho)
                 worst = max(worst, match_interpolant(xs, ys[:, :1], method, k, qd._mjd, got[:1], what))
-    return dict(nt=converted, cls=[method, *(["shared-points"] if other is not None else []), "read-before-set" if any(o in seen[:seen.index("set_form") if "set_form" in seen else len(seen)]
+    return dict(nt=converted, cls=[method, *(["shared-points"] if other is not None else []),
+                                   *(["retuned"] if ("set_method" in seen or "set_order" in seen) else []), "read-before-set" if any(o in seen[:seen.index("set_form") if "set_form" in seen else len(seen)]
                                                                   for o in ("read", "copy()", "ephem()", "dump", "copy.copy", "pickle")) else "plain",
                                    "interp-before-set" if "interp" in seen[: min([seen.index(x) for x in ("set_form", "set_frame") if x in seen] or [0])] else "fresh"],
                 ratio=worst)
